@@ -256,21 +256,21 @@ func (c07) Execute(env *kernel.Env, raw json.RawMessage, ch *kernel.Choices) *ke
 				perm[i], perm[j] = perm[j], perm[i]
 			}
 			out.Fault("reverse")
-			out.Keys = append(out.Keys, "siteperm:"+site+"/reverse")
+			out.Keys = append(out.Keys, "@siteperm:"+site+"/reverse")
 		case 2:
 			k := 1 + ch.Choose("rot:"+site, n-1)
 			for i := range perm {
 				perm[i] = (i + k) % n
 			}
 			out.Fault("rotate")
-			out.Keys = append(out.Keys, "siteperm:"+site+"/rotate")
+			out.Keys = append(out.Keys, "@siteperm:"+site+"/rotate")
 		case 3:
 			for i := n - 1; i > 0; i-- {
 				j := ch.Choose("shuf:"+site, i+1)
 				perm[i], perm[j] = perm[j], perm[i]
 			}
 			out.Fault("shuffle")
-			out.Keys = append(out.Keys, "siteperm:"+site+"/shuffle")
+			out.Keys = append(out.Keys, "@siteperm:"+site+"/shuffle")
 		}
 		perturbed = append(perturbed, fmt.Sprintf("%s%v", site, perm))
 		return perm
